@@ -187,7 +187,7 @@ type c40state struct {
 	afterQuiesce int
 }
 
-// vh_C40_dissolver: real Dissolver, 2 workers, 1..2 jobs, symbolic failure
+// vh_C40_dissolver: real Dissolver, c40_workers (default 2) workers, 1..2 jobs, symbolic failure
 // counts, Close at a chosen point of the submitting thread, workers
 // interleaved by the scheduler with a preemption budget.
 func vh_C40_dissolver() {
@@ -201,7 +201,7 @@ func vh_C40_dissolver() {
 	if (vParam("c40_closemask", 15)>>uint(closeAt))&1 == 0 {
 		vAssume(false) // close point not explored in this configuration
 	}
-	d := New(2)
+	d := New(vParam("c40_workers", 2))
 	quiesced := false
 	st := make([]*c40state, njobs)
 	jobs := make([]Job, njobs)
